@@ -5,7 +5,7 @@
 # Outcome per seed: seeded/<name>/eval.json.
 cd /verif
 export GOFLAGS=-mod=mod GOPROXY=off GOSUMDB=off GOTOOLCHAIN=local
-declare -A PROPS=( [C01-1]="C06 C01" [C01-2]="C06 C01" [C03-1]="C12 C03" [C03-2]="C04 C06 C03" [C05-1]="C04 C05" [C13-2]="C13" [C02-3]="C02 C14" [C03-3]="C03 C06" [C04-3]="C04 C11" [C04-4]="C04 C06" [C05-3]="C05 C01" [C05-4]="C05 C06" [C11-3]="C11 C14" [C11-4]="C11 C04" [C14-3]="C14 C13" [C14-4]="C14 C04" [C01-3]="C01 C06 C04" [C01-4]="C01 C06 C04" [C06-4]="C06 C03" [C12-4]="C12 C03" )
+declare -A PROPS=( [C01-1]="C06 C01" [C01-2]="C06 C01" [C03-1]="C12 C03" [C03-2]="C04 C06 C03" [C05-1]="C04 C05" [C13-2]="C13" [C02-3]="C02 C14" [C03-3]="C03 C06" [C04-3]="C04 C11" [C04-4]="C04 C06" [C05-3]="C05 C01" [C05-4]="C05 C06" [C11-3]="C11 C14" [C11-4]="C11 C04" [C14-3]="C14 C13" [C14-4]="C14 C04" [C01-3]="C01 C06 C04" [C01-4]="C01 C06 C04" [C06-4]="C06 C03" [C12-4]="C12 C03" [C08-3]="C08 C03 C02" [C17-4]="C17" )
 names="$@"; [ -z "$names" ] && names=$(ls seeded | grep -E '^C[0-9]+-[0-9]+$')
 WT=/tmp/seed-eval-wt-$$; OUT=/tmp/seed-eval-out-$$
 git -C /repo worktree add -q --detach $WT HEAD || exit 2
